@@ -224,6 +224,22 @@ fn search_dim<P: Coordinate>(rng: &mut Rng, dyadic: bool, stats: &mut Stats) {
     if !(dist(&got, &want) <= tol(256.0)) { stats.fail("C05", "subsection_point", &desc(format!("a={} b={} c={} e={} s={}", a, b, c, e, s))); }
     if a == 1.0 { stats.count("section.a=1"); }
     if a == b { stats.count("section.a=b"); }
+    // the generic curve operations applied to a SECTION describe the section (a section is a curve: whatever CurveSection
+    // overrides or inherits must agree with the cubic of its own control points) - from seeded change C05-m8
+    let rsec: Curve<P> = curve.section(a, b).reverse();
+    let got = rsec.point_at_pos(s);
+    let want = sec.point_at_pos(1.0 - s);
+    let sec_key = |k: &str| format!("{}{}", k, if b == 1.0 { ".b=1" } else if a == b { ".a=b" } else { "" });
+    if b == 1.0 { stats.count("section.b=1"); }
+    if !(dist(&got, &want) <= tol(2048.0)) { stats.fail("C05", &sec_key("section_reverse_point"), &desc(format!("a={} b={} s={} got={:?} want={:?}", a, b, s, comps(&got), comps(&want)))); }
+    let rback: Curve<P> = rsec.clone().reverse();
+    if !(dist(&rback.point_at_pos(s), &sec.point_at_pos(s)) <= tol(2048.0)) { stats.fail("C05", &sec_key("section_reverse_twice"), &desc(format!("a={} b={} s={}", a, b, s))); }
+    let (sl, sr): (Curve<P>, Curve<P>) = curve.section(a, b).subdivide(t);
+    let want_l = sec.point_at_pos(s * t);
+    let want_r = sec.point_at_pos(t + s * (1.0 - t));
+    if !(dist(&sl.point_at_pos(s), &want_l) <= tol(2048.0)) { stats.fail("C05", &sec_key("section_subdivide_left"), &desc(format!("a={} b={} t={} s={}", a, b, t, s))); }
+    if !(dist(&sr.point_at_pos(s), &want_r) <= tol(2048.0)) { stats.fail("C05", &sec_key("section_subdivide_right"), &desc(format!("a={} b={} t={} s={}", a, b, t, s))); }
+    if sl.end_point() != sr.start_point() { stats.fail("C05", "section_subdivide_split_point_not_shared", &desc(format!("a={} b={} t={}", a, b, t))); }
 
     // reversal
     let rev: Curve<P> = curve.clone().reverse();
